@@ -88,6 +88,10 @@ const STALL_MS: u64 = 3000;
 const REJECT_WAIT_MS: u64 = 60;
 /// how long the harness's thread holds the compiled script's mutex around a load (op FH)
 const HOLD_MS: u64 = 200;
+/// ... the gaps between its holds (a unit that waits needs some tens of microseconds to wake up and take the mutex; the unit whose
+/// turn comes next is there a few hundred microseconds later) and the length of the later holds
+const HOLD_GAPS_US: [u64; 5] = [20, 60, 150, 400, 1200];
+const HOLD_AGAIN_MS: u64 = 50;
 /// a prefix query of a vRIB (trigger to the physical RIB, result back through the chain) normally takes a millisecond
 const VRIB_STALL_MS: u64 = 1500;
 const MAX_VRIBS: u32 = 3;
@@ -392,7 +396,7 @@ fn config_file(dir: &Option<PathBuf>, text: String) -> ConfigFile {
 }
 
 /// Something else that holds the mutex around the compiled script: takes it now (returns once it has it), lets go
-/// `ms` later. The type behind the mutex is rotonda's business (roto::Compiled).
+/// `ms` later, then holds it again for HOLD_AGAIN_MS after each of the gaps HOLD_GAPS_US. The type behind the mutex is rotonda's business (roto::Compiled).
 fn hold_script<T: Send + 'static>(c: Option<std::sync::Arc<std::sync::Mutex<T>>>, ms: u64) -> Option<std::thread::JoinHandle<()>> {
     let c = c?;
     let (tx, rx) = std::sync::mpsc::channel();
@@ -401,6 +405,15 @@ fn hold_script<T: Send + 'static>(c: Option<std::sync::Arc<std::sync::Mutex<T>>>
         let _ = tx.send(());
         std::thread::sleep(Duration::from_millis(ms));
         drop(g);
+        // ... and takes it again, several times: the ingress units fetch their filter when their `run` starts, which is after the
+        // waitpoint that every unit of the load must have reached - the RIB units reach it only once they HAVE theirs (they fetch
+        // in RibUnitRunner::new), that is, once the first hold is over. The gaps let the waiting units through in turn.
+        for gap_us in HOLD_GAPS_US {
+            std::thread::sleep(Duration::from_micros(gap_us));
+            let g = c.lock();
+            std::thread::sleep(Duration::from_millis(HOLD_AGAIN_MS));
+            drop(g);
+        }
     });
     let _ = rx.recv();
     Some(h)
